@@ -139,6 +139,9 @@ func simIssues(c *CompileResult) []Issue {
 		} else if f[0] == "map-write" {
 			out = append(out, Issue{Class: "crash:concurrent-map-write@" + f[1] + "+" + f[2],
 				Detail: fmt.Sprintf("%s write the same map at %s and %s with no happens-before edge between the writes: on a multi-core machine the Go runtime aborts with 'fatal error: concurrent map writes'", f[3], f[1], f[2])})
+		} else if f[0] == "read-update" {
+			out = append(out, Issue{Class: "unsynchronised-read@" + f[1] + "+" + f[2],
+				Detail: fmt.Sprintf("%s read and update the same field of a lock-carrying structure at %s and %s with no happens-before edge between the accesses (the reader can see the old value, the new one, or act on a value that is being replaced)", f[3], f[1], f[2])})
 		} else {
 			out = append(out, Issue{Class: "unsynchronised-update@" + f[1] + "+" + f[2],
 				Detail: fmt.Sprintf("%s update the same location at %s and %s with no happens-before edge between the updates (one of them can be lost)", f[3], f[1], f[2])})
